@@ -185,18 +185,20 @@ def multiLine (name : String) (ps : List (Param Float)) : Bool :=
   | _ => false
 
 /-- why the meaning of this operation's lines may differ from the operation (first applicable cause) -/
+def gateCause (g : XGate Float) : String :=
+  if nestedLoop false g then "nested-loop"
+  else if anyLib (fun n _ => n == "CCRZ") g then "ccrz-relative-phase"
+  else "unexplained"
+
 def opCause : XOp Float → String
   | .cond control target g _ =>
-      if control.isEmpty then (if target ≠ 0 then "empty-control" else "unexplained")
+      if control.isEmpty then (if target ≠ 0 then "empty-control" else gateCause g)   -- exported like a plain gate
       else if !distinct control then "repeated-control"
       else if target ≥ 2 ^ control.length then "target-beyond-controls"
       else if anyLib multiLine g then "cond-multiline"
       else if anyLib (fun n _ => n == "CCRZ") g then "ccrz-relative-phase"
       else "unexplained"
-  | .gate g _ =>
-      if nestedLoop false g then "nested-loop"
-      else if anyLib (fun n _ => n == "CCRZ") g then "ccrz-relative-phase"
-      else "unexplained"
+  | .gate g _ => gateCause g
   | .measureAll _ b => if b != .Z then "measure-all-basis-not-restored" else "unexplained"
   | _ => "unexplained"
 
